@@ -207,6 +207,42 @@ def oracle(ctx):
                         break
                 if raw[-1] is not None and float(raw[-1].abs().max()) != 0:
                     ctx.fail("oracle", "solvegrad:unused-nonzero", info, raw[-1], "None or zero")
+    backward_options_probe(ctx)
+
+
+def backward_options_probe(ctx):
+    """regardless 'of the backward options': a callable given as the backward method is the solver of the adjoint system
+    (first order) and of the systems met when the backward pass is differentiated (seeded defect C04/3)"""
+    import xitorch as xt
+    from xitorch.linalg import solve
+    from xitorch._impls.linalg.solve import exactsolve
+    calls = {"fwd": 0, "bck": 0}
+
+    def mk(tag):
+        def f(A, B, E=None, M=None, **unused):
+            calls[tag] += 1
+            return exactsolve(A, B, E, M)
+        return f
+    for n in (3, 8):
+        g = torch.Generator().manual_seed(ctx.seed + 17 * n)
+        Am = (0.3 * torch.randn(n, n, dtype=torch.float64, generator=g) + 2.0 * torch.eye(n, dtype=torch.float64)).requires_grad_()
+        Bm = torch.randn(n, 2, dtype=torch.float64, generator=g).requires_grad_()
+        calls["fwd"] = calls["bck"] = 0
+        X = solve(xt.LinearOperator.m(Am, is_hermitian=False), Bm, method=mk("fwd"), bck_options={"method": mk("bck")})
+        f0, b0 = calls["fwd"], calls["bck"]
+        g1 = torch.autograd.grad(X.sum(), (Am, Bm), create_graph=True)
+        b1 = calls["bck"]
+        torch.autograd.grad((g1[0] ** 2).sum() + (g1[1] ** 2).sum(), (Am, Bm))
+        b2 = calls["bck"]
+        ctx.count(("bck-options", n), nontrivial=True)
+        info = {"n": n, "method": "<callable>", "bck_options": "{'method': <callable>}"}
+        if f0 != 1 or b0 != 0 or b1 - b0 < 1 or calls["fwd"] != 1:
+            ctx.fail("oracle", "solvegrad:backward-method-ignored:first-order", info,
+                     {"forward_solver_calls": calls["fwd"], "backward_solver_calls_in_first_backward": b1 - b0},
+                     "forward solver once in the forward pass, backward solver in the backward pass")
+        elif b2 - b1 < 1:
+            ctx.fail("oracle", "solvegrad:backward-method-ignored:second-order", info, {"backward_solver_calls": b2 - b1},
+                     "the backward solver also runs when the backward pass is differentiated")
 
 
 def search(ctx):
